@@ -146,6 +146,10 @@ FpKnots == {k \in UNION {UNION {{[i \in 1..L |-> V[s[i]]] : s \in ND(L, 1, Len(V
 MaxP == IF Thorough THEN 4 ELSE 3
 
 Weights == {<<ROne>>, <<R(1, 2), FromInt(-1)>>, <<RZero, ROne, R(1, 4)>>, <<ROne, RZero, RZero, R(-1, 8)>>}
+\* degrees 4..6 (every binomial row the weight operator expands), on low orders only: 32-bit integers
+HighWeights == {<<RZero, RZero, RZero, RZero, R(1, 8)>>, <<RZero, ROne, RZero, RZero, RZero, R(-1, 16)>>,
+                <<R(1, 2), RZero, RZero, RZero, RZero, RZero, R(1, 16)>>}
+WeightsFor(a, b) == Weights \cup (IF a.o + b.o <= 2 THEN HighWeights ELSE {})
 
 J(x) == x   \* (documentation: values below are serialised with ToJson)
 
@@ -176,10 +180,11 @@ SplCases(a) ==
               e1 \in FpBFOps, e2 \in FpBFOps, b \in {x \in BigSplsOn(g) : x.o <= 2}}
            ELSE {})
      \cup (IF ~IntGrid(g) THEN {} ELSE
-           {[op |-> "FpInt", n |-> n, w |-> w, a |-> a, b |-> b,
-            exact |-> IF 2 * n - 1 >= a.o + b.o + (Len(w) - 1) THEN 1 ELSE 0,
-            E |-> WeightedVal(w, a, b), S |-> WeightedAbs(w, a, b)] :
-             n \in 1..6, w \in Weights, b \in {x \in BigSplsOn(g) : x.c # <<>> /\ x.c = FrC(Len(x.c), x.o, 0)}})
+           UNION {{[op |-> "FpInt", n |-> n, w |-> w, a |-> a, b |-> b,
+                    exact |-> IF 2 * n - 1 >= a.o + b.o + (Len(w) - 1) THEN 1 ELSE 0,
+                    E |-> WeightedVal(w, a, b), S |-> WeightedAbs(w, a, b)] :
+                     n \in 1..6, w \in WeightsFor(a, b)} :
+                  b \in {x \in BigSplsOn(g) : x.c # <<>> /\ x.c = FrC(Len(x.c), x.o, 0)}})
 
 \* grid construction from special floating-point values (C11): every sequence of
 \* length <= 4 over {0, 1, 2, NaN} (+/-Inf and -0.0 in the thorough tier)
